@@ -57,7 +57,12 @@ type Src struct {
 		Tag string
 		rev int
 	}
-	Box   ext.Box
+	Box  ext.Box
+	STag Tag
+	CT   struct {
+		Name string
+		Age  int
+	}
 	PSame *Holder
 	W     Wire
 	_     int
@@ -68,6 +73,9 @@ type Src struct {
 }
 
 func (s *Src) Prof() ext.Profile { return ext.Profile{} }
+
+// Same2 hands out a Holder by value: the same type as the destination field of that name.
+func (s *Src) Same2() Holder { return s.Same }
 
 func (s *Src) Title() string         { return s.Name }
 func (s *Src) Owner() *ext.Owner     { return &s.Imp }
@@ -97,6 +105,8 @@ type Dst struct {
 		owner string
 	}
 	Box   ext.Box2
+	Same2 Holder
+	CT    ext.CaseTwin
 	PSame *Holder
 	Label Tag
 	W     WireX
